@@ -401,10 +401,10 @@ func cmdRun(args []string) int {
 var requiredProbes = map[string][]string{
 	"C04": {"fault.write.EPIPE", "fault.write.ENOSPC", "fault.write.EIO", "fault.callee.execute", "fault.callee.callback", "fd1.write", "fd2.write"},
 	"C05": {"cell.parse-parse|scalar|env+default+stored", "cell.defini-parse|slice|ini+env", "cell.parse-defini|scalar|ini+default"},
-	"C09": {"fault.callee.execute", "fault.callee.handler", "fault.callee.callback", "exit", "probe.fault-produced-error", "probe.fault-harmless"},
+	"C09": {"fault.callee.execute", "fault.callee.handler", "fault.callee.callback", "exit", "probe.fault-produced-error", "probe.fault-harmless", "probe.plan-consistent"},
 	"C12": {"read.zero", "read.data+EOF"},
 	"C14": {"fault.crash-in-write", "fault.read.EIO", "read.zero", "read.data+EOF", "probe.read-error-reported-as-error", "probe.stall>=100"},
-	"C15": {"order.permuted", "twin.clock-jump", "twin.observer-insertion"},
+	"C15": {"order.permuted", "twin.clock-jump", "twin.observer-insertion", "twin.same-argument-slices-again", "twin.other-parser-in-between", "twin.reader-delivery", "twin.completion-on-fresh-parser"},
 }
 
 func vacuous(prop string, m *workerResult) string {
